@@ -39,14 +39,15 @@ def run(cx):
             if name_matches(c.fn, ("Iterator::find", "Iterator::any", "Iterator::position", "slice::contains", "Iterator::find_map")) and not is_tracing(c):
                 it = o.of_operand(c.args[0])
                 cl = o.of_operand(c.args[1])
-                ok = mentions_field(it, "server_names") and mentions_param(it, "self") and name_matches(c.fn, "Iterator::find") and cl[0] == "agg" and cl[2] in kids
+                ok = mentions_field(it, "server_names") and mentions_param(it, "self") and name_matches(c.fn, ("Iterator::find", "Iterator::any")) and cl[0] == "agg" and cl[2] in kids
                 if ok:
                     kb = kids[cl[2]]
                     ko = Origins(kb)
                     r = strip_identity(ko.of_local(0))
                     ok = r[0] == "call" and name_matches(r[1], ("cmp::impls::eq", "cmp::PartialEq::eq")) and len(r[2]) == 2
                     if ok:
-                        sides = sorted(("name" if mentions_param(x, "name") else "dialled" if mentions_upvar(x, "dns_name") else "?") for x in r[2])
+                        # one side is the closure's own parameter (an accepted name), the other its single capture (the dialled name)
+                        sides = sorted(("name" if any(y[0] == "param" for y in walk(x)) else "dialled" if any(y[0] == "upvar" for y in walk(x)) else "?") for x in r[2])
                         ok = sides == ["dialled", "name"]
                         cap = cl[3]
                         ok = ok and len(cap) == 1 and any(v[0] == "variant" and v[2] == "DnsName" for v in walk(cap[0])) and mentions_param(cap[0], "server_name")
@@ -73,6 +74,13 @@ def run(cx):
         def extra(a, bb, subj, labels, o):
             if subj[0] == "discr" and is_param(strip_identity(subj[1]), "server_name"):
                 return "sni=" + "|".join(sorted(labels))
+            r = strip_identity(subj)
+            neg = False
+            while r[0] == "unop" and r[1] == "Not":
+                neg = not neg
+                r = strip_identity(r[2])
+            if r[0] == "call" and name_matches(r[1], "Iterator::any") and mentions_field(r[2][0], "server_names") and labels in ({"true"}, {"false"}):
+                return [] if (labels == {"true"}) != neg else "unmatched"
             return None
 
         def stmt_sym(bbi, s, o):
@@ -80,13 +88,17 @@ def run(cx):
                 return "ret=" + s["rv"]["variant"]
             return None
         ws = seq_words(b, call_sym, stmt_sym, extra)
+        # `names.iter().find(|n| n == dialled).ok_or(Err)?` and `if !names.iter().any(|n| n == dialled) { return Err }` are the same gate
+        def canon(w_):
+            return w_.replace(" ok_or(Err)", "").replace(" unmatched ret=Err <return>", " !err <return>")
+        ws = {tuple(canon(fmt_word(w)).split(" ")) for w in ws}
         okw = {fmt_word(w) for w in ws if "!err" not in w and "ret=Err" not in w}
-        ob.require(okw == {"prepare sni=DnsName find(server_names==dialled) ok_or(Err) verify_for_usage name_valid(dialled) ret=name_valid.map(assertion) <return>"},
+        ob.require(okw == {canon("prepare sni=DnsName find(server_names==dialled) ok_or(Err) verify_for_usage name_valid(dialled) ret=name_valid.map(assertion) <return>")},
                    "server-cert/ok-path", f"verify_server_cert success paths: {sorted(okw)}", b.path, b.loc())
         errs = {fmt_word(w) for w in ws} - okw
-        want = {"prepare !err <return>", "prepare sni=IpAddress ret=Err <return>",
-                "prepare sni=DnsName find(server_names==dialled) ok_or(Err) !err <return>",
-                "prepare sni=DnsName find(server_names==dialled) ok_or(Err) verify_for_usage !err <return>"}
+        want = {canon(x) for x in ("prepare !err <return>", "prepare sni=IpAddress ret=Err <return>",
+                                   "prepare sni=DnsName find(server_names==dialled) ok_or(Err) !err <return>",
+                                   "prepare sni=DnsName find(server_names==dialled) ok_or(Err) verify_for_usage !err <return>")}
         ob.require(errs == want, "server-cert/err-paths", f"verify_server_cert error paths: {sorted(errs)}", b.path, b.loc())
         ob.set_sample({"body": b.path, "ok": sorted(okw), "err": sorted(errs)})
 
